@@ -202,6 +202,15 @@ Definition valid_at (tbl : list (string * list schema)) (op : string) (v : Z) (x
   | None => false
   end.
 
+(* ---------------------------------------------------------------- documented semantics of re-stamped operators *)
+(* classification of a version step whose doc string changed (made by reading both doc strings; Gen/VersionDocSteps.v) *)
+Inductive docclass := DWidening | DNeutralAttr | DEditorial | DBehavioural.
+Definition is_behavioural (c : docclass) : bool := match c with DBehavioural => true | _ => false end.
+(* the steps documented as behavioural for which no adapter is registered *)
+Definition behavioural_unadapted (keys : list (string * string * Z * bool)) (steps : list (string * Z * docclass)) : list (string * Z) :=
+  flat_map (fun st => let '(op, v, c) := st in
+                      if is_behavioural c && negb (adapted_at keys op (v - 1)) then [(op, v)] else []) steps.
+
 (* ---------------------------------------------------------------- nodes of the conversion model, viewed *)
 (* what Model.node does not carry: the type strings of the values and the kinds of the attributes that
    are not plain int/float/string/ints (graphs, tensors, ...), by name *)
